@@ -259,7 +259,7 @@ func Stream(t *testing.T, prop string, quick, thorough int) {
 	var w *cw.World
 	var specs []nodeSpec
 	var second *scripted
-	left := 0
+	left, worlds := 0, 0
 	for i := 0; i < n; i++ {
 		if left == 0 { // a fresh world with 1-4 nodes
 			if w != nil {
@@ -267,7 +267,8 @@ func Stream(t *testing.T, prop string, quick, thorough int) {
 			}
 			w = cw.New(t, cw.Options{})
 			second = nil
-			if rng.Intn(5) < 2 { // two plugins: the manager merges their answers
+			worlds++
+			if worlds%2 == 0 { // every second world has two plugins: the manager merges their answers
 				second = &scripted{Plugin: &pluginmocks.Plugin{}, caps: map[string]*plugintypes.NodeDeployCapacity{}}
 				mgr, ok := w.RawRmgr.(*cobalt.Manager)
 				if !ok {
@@ -279,7 +280,7 @@ func Stream(t *testing.T, prop string, quick, thorough int) {
 				t.Fatal(err)
 			}
 			specs = nil
-			k := 1 + rng.Intn(4)
+			k := []int{1, 2, 2, 3, 3, 4}[rng.Intn(6)]
 			for j := 0; j < k; j++ {
 				s := nodeSpec{fmt.Sprintf("n%d", j), []int{1, 2, 2, 4, 4, 6}[rng.Intn(6)], []int64{300, 1000, 1000, 2500, 4000}[rng.Intn(5)]}
 				if err := w.AddNode(s.name, "pod", s.ncpu, s.mem); err != nil {
@@ -293,7 +294,7 @@ func Stream(t *testing.T, prop string, quick, thorough int) {
 						Weight:   []float64{1, 1, 2, 100}[rng.Intn(4)]}
 				}
 			}
-			left = 3 + rng.Intn(4)
+			left = 3 + rng.Intn(3)
 		}
 		left--
 		// request
@@ -419,7 +420,7 @@ func Stream(t *testing.T, prop string, quick, thorough int) {
 	if w != nil {
 		w.Close()
 	}
-	r.Finish("deploy path end to end on a real Calcium (embedded etcd, real cpumem plugin, fake engine; 2 worlds in 5 with a second " +
+	r.Finish("deploy path end to end on a real Calcium (embedded etcd, real cpumem plugin, fake engine; every second world with a second " +
 		"scripted plugin offering its own capacity/usage/rate/weight for a subset of the nodes): worlds of 1-4 nodes " +
 		"(1-6 cores, 300-4000 bytes) used for 3-6 consecutive requests each (so later cases see usage and deploy status left " +
 		"by earlier creates); bound / memory-only / unlimited / unsatisfiable requests; all strategies, limit 0-3, a third of " +
